@@ -204,6 +204,175 @@ def rule_finder_predicate(ck: Check, repo: Repo, rid: str = "R6") -> None:
         r.violation("reuse.header._find_first_spdx_comment", "finder predicate", "the finder must use contains_reuse_info(comment)", repo.loc(ff))
 
 
+# ---------------------------------------------------------------------------------------------------------------
+# R9: free-text values requested on the command line enter the header in the reader's normal form
+class _NormalForm:
+    """Per-element flow status of the raw command-line strings up to ReuseInfo: 'norm' (every occurrence passes a
+    str.strip()/split() or a package function that normalises its parameter), 'raw' (reaches the header as given), or
+    'unknown' (passes a call this analysis does not model)."""
+
+    def __init__(self, repo: Repo):
+        self.repo = repo
+
+    def callee(self, fn: ast.FunctionDef, call: ast.Call):
+        mod = self.repo.module_of(fn)
+        d = self.repo.dotted(mod, call.func) if isinstance(call.func, (ast.Name, ast.Attribute)) else None
+        if d and self.repo.has_func(d):
+            return self.repo.func(d)
+        return None
+
+    def elem(self, fn: ast.FunctionDef, elt: ast.AST, var: str, depth: int = 0) -> str:
+        from ..model import parent_of
+        from ..rules import param_names
+        for n in ast.walk(elt):
+            for c in ast.iter_child_nodes(n):
+                c._nf_parent = n  # type: ignore[attr-defined]
+        worst = "norm"
+        rank = {"norm": 0, "unknown": 1, "raw": 2}
+        for n in ast.walk(elt):
+            if not (isinstance(n, ast.Name) and n.id == var and isinstance(n.ctx, ast.Load)):
+                continue
+            st = "raw"
+            par = getattr(n, "_nf_parent", None)
+            if isinstance(par, ast.Attribute) and par.attr in ("strip", "split"):
+                call = getattr(par, "_nf_parent", None)
+                if isinstance(call, ast.Call) and call.func is par and not call.args and not call.keywords:
+                    st = "norm"
+                elif isinstance(call, ast.Call):
+                    st = "unknown"
+            elif isinstance(par, ast.Attribute):
+                st = "unknown"      # some other method of the string
+            elif isinstance(par, ast.keyword):
+                par = getattr(par, "_nf_parent", None)
+            if isinstance(par, ast.Call) and par.func is not n and st == "raw":
+                g = self.callee(fn, par) if depth < 3 else None
+                if g is None:
+                    st = "unknown" if not (isinstance(par.func, ast.Name) and par.func.id in ("str", "format")) else "raw"
+                else:
+                    names = [x for x in param_names(g) if x not in ("self", "cls")]
+                    pname = None
+                    for i, a in enumerate(par.args):
+                        if a is n and i < len(names):
+                            pname = names[i]
+                    for kw in par.keywords:
+                        if kw.value is n:
+                            pname = kw.arg
+                    st = self.ret(g, pname, depth + 1) if pname else "unknown"
+            if rank[st] > rank[worst]:
+                worst = st
+        return worst
+
+    def ret(self, g: ast.FunctionDef, p: str, depth: int) -> str:
+        """Status of parameter *p* in what g returns."""
+        from ..rules import resolve_deep
+        for st in g.body:
+            if isinstance(st, ast.Expr) and isinstance(st.value, ast.Constant):
+                continue
+            if (isinstance(st, ast.Assign) and len(st.targets) == 1 and isinstance(st.targets[0], ast.Name) and st.targets[0].id == p
+                    and self.elem(g, st.value, p, depth) == "norm"):
+                return "norm"
+            if any(isinstance(n, ast.Name) and n.id == p for n in ast.walk(st)) and not isinstance(st, (ast.If,)):
+                break
+            if isinstance(st, ast.If) and any(isinstance(x, (ast.Return, ast.Assign)) for x in ast.walk(st)
+                                              if any(isinstance(m, ast.Name) and m.id == p for m in ast.walk(x))):
+                break
+        worst = "norm"
+        rank = {"norm": 0, "unknown": 1, "raw": 2}
+        rets = [n for n in ast.walk(g) if isinstance(n, ast.Return) and n.value is not None]
+        if not rets:
+            return "unknown"
+        for rt in rets:
+            st = self.elem(g, resolve_deep(g, rt.value), p, depth)
+            if rank[st] > rank[worst]:
+                worst = st
+        return worst
+
+    def coll(self, fn: ast.FunctionDef, expr: ast.AST, depth: int = 0) -> tuple[str, str]:
+        """(status, via) of the strings in a collection-valued expression of fn."""
+        from ..rules import param_names
+        if isinstance(expr, ast.Name):
+            if expr.id in param_names(fn):
+                return "param", expr.id
+            return "unknown", ast.unparse(expr)
+        if isinstance(expr, ast.Call):
+            name = ast.unparse(expr.func)
+            if name in ("set", "list", "tuple", "sorted", "frozenset") and len(expr.args) == 1:
+                return self.coll(fn, expr.args[0], depth)
+            if name == "map" and len(expr.args) == 2 and ast.unparse(expr.args[0]) == "str.strip":
+                return "norm", "map(str.strip, …)"
+            return "unknown", name + "(…)"
+        if isinstance(expr, (ast.SetComp, ast.ListComp, ast.GeneratorExp)) and len(expr.generators) == 1 \
+                and isinstance(expr.generators[0].target, ast.Name):
+            gen = expr.generators[0]
+            inner, via = self.coll(fn, gen.iter, depth)
+            if inner == "norm":
+                return inner, via
+            st = self.elem(fn, expr.elt, gen.target.id)
+            if st == "norm":
+                return "norm", ast.unparse(expr.elt)
+            if st == "unknown":
+                return "unknown", ast.unparse(expr.elt)
+            return inner, via
+        if isinstance(expr, ast.BinOp) and isinstance(expr.op, ast.BitOr):
+            a, b = self.coll(fn, expr.left, depth), self.coll(fn, expr.right, depth)
+            return max((a, b), key=lambda t: {"norm": 0, "unknown": 1, "param": 2}.get(t[0], 1))
+        return "unknown", ast.unparse(expr)
+
+
+def rule_normal_form(ck: Check, repo: Repo, rid: str = "R9") -> None:
+    """The reader never returns a copyright or contributor value with surrounding blanks (the tag patterns consume
+    `[ \\t]+` before and blanks before the line end after the value; decided by C02).  The merge with what the file
+    already declares is a set union of strings, so a requested value that still carries surrounding blanks is a different
+    element from the one read back on the next run: the second run adds the line again.  Necessary condition decided
+    here: on every flow from the --copyright / --contributor parameters to ReuseInfo the string passes a normalisation."""
+    from ..model import named_args
+    from ..rules import resolve_deep
+    r = ck.rule(rid, "requested copyright and contributor texts enter ReuseInfo without surrounding blanks (the form the reader returns)")
+    q = "reuse.cli.annotate.get_reuse_info"
+    fn = repo.func(q)
+    ck.analysed_fn(q, repo.loc(fn))
+    calls = [c for c in ast.walk(fn) if isinstance(c, ast.Call) and ast.unparse(c.func).split(".")[-1] == "ReuseInfo"]
+    if len(calls) != 1:
+        raise AnalysisError("get_reuse_info: exactly one ReuseInfo(...) expected")
+    args = named_args(calls[0])
+    nf = _NormalForm(repo)
+    for field in ("copyright_lines", "contributor_lines"):
+        if field not in args:
+            raise AnalysisError(f"get_reuse_info: ReuseInfo field {field} is not passed by keyword")
+        status, via = nf.coll(fn, resolve_deep(fn, args[field]))
+        where = q
+        if status == "param":
+            # the raw parameter of get_reuse_info: look one level up, at the call sites
+            sites = []
+            for cq, cfn in repo.functions.items():
+                for c in ast.walk(cfn):
+                    if isinstance(c, ast.Call) and ast.unparse(c.func).split(".")[-1] == "get_reuse_info":
+                        sites.append((cq, cfn, c))
+            if not sites:
+                raise AnalysisError("no call site of get_reuse_info")
+            status = "norm"
+            for cq, cfn, c in sites:
+                a = named_args(c).get(via)
+                if a is None:
+                    raise AnalysisError(f"{cq}: argument for {via} not found")
+                s2, via2 = nf.coll(cfn, resolve_deep(cfn, a))
+                if s2 == "param":
+                    # a click parameter: raw unless the option declares a callback
+                    cb = any(isinstance(d, ast.Call) and any(k.arg in ("callback", "type") and via2.rstrip("s_") in ast.unparse(d) for k in d.keywords)
+                             and any(k.arg == "callback" for k in d.keywords) for d in cfn.decorator_list)
+                    s2 = "unknown" if cb else "raw"
+                if s2 != "norm":
+                    status, where = s2, cq
+        r.instance(f"normal-form:{field}", {"status": status, "via": via}, q)
+        if status == "raw":
+            r.violation(where, f"{field}: the requested text reaches ReuseInfo as given",
+                        f"`annotate --{'copyright' if field.startswith('copy') else 'contributor'} \"Jane \"` twice: the first run writes the value with its trailing blank, the"
+                        " second run reads it back without and adds the requested line a second time (the file changes on every"
+                        " identical re-run until both spellings are in it)", repo.loc(calls[0]))
+        elif status == "unknown":
+            raise AnalysisError(f"get_reuse_info: flow of {field} passes a call this rule does not model ({via})")
+
+
 def run(ck: Check, repo: Repo) -> None:
     ck.explanation = (
         "R1 order taint on everything reachable from annotate: no value whose order comes from a set or the file"
@@ -224,3 +393,4 @@ def run(ck: Check, repo: Repo) -> None:
     # run with --merge-copyrights rewrites the line the first run wrote (table shared with C20-R4)
     from . import c20
     c20.rule_get_year(ck, repo, "R7")
+    rule_normal_form(ck, repo)
